@@ -4,10 +4,11 @@
 // which prints `EndianSlice(<endian>, [first <= 8 bytes; total length])`.
 use crate::util::*;
 use gimli::constants::DwEhPe;
+use crate::c06::{fmt_row, with_fresh_ctx, S1x1, S2x3, S4x192, S8x256, SVec};
 use gimli::{
-    BaseAddresses, CieOrFde, CommonInformationEntry, DebugFrame, EhFrame, EhFrameHdr, EndianSlice,
-    FrameDescriptionEntry, Pointer, RunTimeEndian, SectionBaseAddresses, UnwindContext,
-    UnwindOffset, UnwindSection,
+    BaseAddresses, CallFrameInstruction, CieOrFde, CommonInformationEntry, DebugFrame, EhFrame,
+    EhFrameHdr, EndianSlice, FrameDescriptionEntry, Pointer, RunTimeEndian, SectionBaseAddresses,
+    StoreOnHeap, UnwindContext, UnwindContextStorage, UnwindOffset, UnwindSection, Vendor,
 };
 
 type R<'a> = EndianSlice<'a, RunTimeEndian>;
@@ -378,6 +379,208 @@ fn hdr_case(t: &[&str]) -> String {
     out
 }
 
+
+// ---------------------------------------------------------------- unwind_info_for_address
+fn uwi_row<St: UnwindContextStorage<usize>>(
+    r: Result<&gimli::UnwindTableRow<usize, St>, gimli::Error>,
+    a: u64,
+) -> String {
+    match r {
+        Ok(row) => {
+            if !row.contains(a) {
+                return format!("lookup-mismatch row does not contain {}", a);
+            }
+            match fmt_row(row, &[]) {
+                Ok(s) => format!("ok {}", s),
+                Err(m) => m,
+            }
+        }
+        Err(e) => err(&e),
+    }
+}
+
+/// spec-level oracle on the implementation alone: own exhaustive scan for the FDE, then a plain
+/// walk over fde.rows() on a fresh context until a row contains the address
+fn uwi_oracle<'a, S, St>(sec: &S, bases: &BaseAddresses, a: u64) -> String
+where
+    S: UnwindSection<R<'a>>,
+    St: UnwindContextStorage<usize>,
+{
+    let f = match scan(sec, bases, a) {
+        Ok(f) => f,
+        Err(e) => return err(&e),
+    };
+    let mut ctx = Box::new(UnwindContext::<usize, St>::new_in());
+    let mut table = match f.rows(sec, bases, &mut ctx) {
+        Ok(t) => t,
+        Err(e) => return err(&e),
+    };
+    loop {
+        match table.next_row() {
+            Ok(Some(row)) => {
+                if row.contains(a) {
+                    return match fmt_row(row, &[]) {
+                        Ok(s) => format!("ok {}", s),
+                        Err(m) => m,
+                    };
+                }
+            }
+            Ok(None) => return "err NoUnwindInfoForAddress".into(),
+            Err(e) => return err(&e),
+        }
+    }
+}
+
+fn uwi_lin<'a, S, St>(sec: &S, bases: &BaseAddresses, ctx: &mut UnwindContext<usize, St>, addrs: &[u64]) -> String
+where
+    S: UnwindSection<R<'a>>,
+    St: UnwindContextStorage<usize>,
+{
+    let mut out = String::from("ok");
+    for &a in addrs {
+        let got = uwi_row(sec.unwind_info_for_address(bases, ctx, a, |s, b, o| s.cie_from_offset(b, o)), a);
+        if got.contains("-mismatch") {
+            return got;
+        }
+        let want = uwi_oracle::<S, St>(sec, bases, a);
+        if got != want {
+            return format!("uwi-row-mismatch addr={} got={} scan+rows={}", a, got.replace(' ', "_"), want.replace(' ', "_"));
+        }
+        out.push_str(" | ");
+        out.push_str(&got);
+    }
+    out
+}
+
+fn uwi_case(t: &[&str]) -> String {
+    let storage = t[2];
+    let vendor = if t[3] == "1" { Vendor::AArch64 } else { Vendor::Default };
+    if t[1] == "L" {
+        // L <storage> <vendor> <eh> <be> <asz> <sec> <text> <data> <bytes> <addr>*
+        let eh = t[4] == "1";
+        let en = endian(t[5]);
+        let asz = u(t[6]) as u8;
+        let mut bases = BaseAddresses::default();
+        bases.eh_frame = sb(&t[7..10]);
+        let bytes = hex(t[10]);
+        let addrs: Vec<u64> = t[11..].iter().map(|x| u(x)).collect();
+        if eh {
+            let mut s = EhFrame::new(&bytes, en);
+            s.set_address_size(asz);
+            s.set_vendor(vendor);
+            with_fresh_ctx!(storage, ctx, uwi_lin(&s, &bases, &mut *ctx, &addrs))
+        } else {
+            let mut s = DebugFrame::new(&bytes, en);
+            s.set_address_size(asz);
+            s.set_vendor(vendor);
+            with_fresh_ctx!(storage, ctx, uwi_lin(&s, &bases, &mut *ctx, &addrs))
+        }
+    } else {
+        // H <storage> <vendor> <be> <hasz> <hsec> <htext> <hdata> <hdrbytes> <easz> <esec> <etext> <edata> <ehbytes> <wf> <addr>*
+        let en = endian(t[4]);
+        let hasz = u(t[5]) as u8;
+        let mut bases = BaseAddresses::default();
+        bases.eh_frame_hdr = sb(&t[6..9]);
+        let hbytes = hex(t[9]);
+        let easz = u(t[10]) as u8;
+        bases.eh_frame = sb(&t[11..14]);
+        let ebytes = hex(t[14]);
+        let wf = t[15] == "1";
+        let addrs: Vec<u64> = t[16..].iter().map(|x| u(x)).collect();
+        let hdr = EhFrameHdr::new(&hbytes, en);
+        let parsed = match hdr.parse(&bases, hasz) {
+            Ok(p) => p,
+            Err(e) => return err(&e),
+        };
+        let table = match parsed.table() {
+            Some(tb) => tb,
+            None => return "ok notable".into(),
+        };
+        let mut frame = EhFrame::new(&ebytes, en);
+        frame.set_address_size(easz);
+        frame.set_vendor(vendor);
+        with_fresh_ctx!(storage, ctx, {
+            let mut out = String::from("ok");
+            let mut bad: Option<String> = None;
+            for &a in &addrs {
+                let got = uwi_row(
+                    table.unwind_info_for_address(&frame, &bases, &mut *ctx, a, EhFrame::cie_from_offset),
+                    a,
+                );
+                if got.contains("-mismatch") {
+                    bad = Some(got);
+                    break;
+                }
+                if wf {
+                    // well-formed header over disjoint FDEs: the header path = the linear path
+                    let lin = uwi_row(
+                        frame.unwind_info_for_address(&bases, &mut *ctx, a, EhFrame::cie_from_offset),
+                        a,
+                    );
+                    if lin != got {
+                        bad = Some(format!("lookup-mismatch addr={} hdr={} linear={}", a, got.replace(' ', "_"), lin.replace(' ', "_")));
+                        break;
+                    }
+                }
+                out.push_str(" | ");
+                out.push_str(&got);
+            }
+            bad.unwrap_or(out)
+        })
+    }
+}
+
+/// first instruction of every FDE that parses, when it is DW_CFA_set_loc
+fn setloc_case(t: &[&str]) -> String {
+    let eh = t[1] == "1";
+    let en = endian(t[2]);
+    let asz = u(t[3]) as u8;
+    let mut bases = BaseAddresses::default();
+    bases.eh_frame = sb(&t[4..7]);
+    let bytes = hex(t[7]);
+    fn go<'a, S>(sec: &S, bases: &BaseAddresses) -> String
+    where
+        S: UnwindSection<R<'a>>,
+    {
+        let mut out = String::from("ok");
+        let mut it = sec.entries(bases);
+        loop {
+            match it.next() {
+                Ok(Some(CieOrFde::Fde(p))) => match p.parse(|s, b, o| s.cie_from_offset(b, o)) {
+                    Ok(f) => {
+                        let d = format!("{:?}", f);
+                        let sl = dbg_slice(&d, " instructions: ");
+                        let first_is_set_loc = sl.split(':').nth(1).map(|h| h.starts_with("01")).unwrap_or(false);
+                        if !first_is_set_loc {
+                            out.push_str(" n");
+                        } else {
+                            match f.instructions(sec, bases).next() {
+                                Ok(Some(CallFrameInstruction::SetLoc { address })) => out.push_str(&format!(" S{}", address)),
+                                Ok(_) => return "setloc-decode-mismatch".into(),
+                                Err(e) => out.push_str(&format!(" E{}", errname(&e))),
+                            }
+                        }
+                    }
+                    Err(_) => out.push_str(" p"),
+                },
+                Ok(Some(_)) => {}
+                Ok(None) => break,
+                Err(_) => break,
+            }
+        }
+        out
+    }
+    if eh {
+        let mut s = EhFrame::new(&bytes, en);
+        s.set_address_size(asz);
+        go(&s, &bases)
+    } else {
+        let mut s = DebugFrame::new(&bytes, en);
+        s.set_address_size(asz);
+        go(&s, &bases)
+    }
+}
+
 pub fn run(t: &[&str]) -> String {
     match t[0] {
         "c05.pe" => {
@@ -412,6 +615,8 @@ pub fn run(t: &[&str]) -> String {
         "c05.ent" | "c05.raw" => section_case(t, false),
         "c05.look" | "c05.lraw" => section_case(t, true),
         "c05.hdr" | "c05.hraw" => hdr_case(t),
+        "c05.uwi" => uwi_case(t),
+        "c05.setloc" => setloc_case(t),
         "c05.nopanic" => {
             // <class> <kind> rest...: run the named family, report only that it returned
             let inner: Vec<&str> = t[2..].to_vec();
